@@ -79,9 +79,9 @@ static const char *valrepr(const char *v)
 
 static void real_canon(double x, char *out)
 {
-  char b[64]; char *e; long ex; char digs[16]; int nd = 0, i; int neg = 0;
+  char b[64]; char *e; long ex; char digs[32]; int nd = 0, i; int neg = 0;
   if (x != x || x - x != 0.0) { strcpy(out, "special"); return; }
-  snprintf(b, sizeof(b), "%.5e", x);
+  snprintf(b, sizeof(b), "%.14e", x);      /* 15 significant digits: exact for every decimal of <= 15 digits */
   e = strchr(b, 'e'); ex = strtol(e + 1, NULL, 10);
   for (i = 0; b + i < e; i++) { if (b[i] == '-') neg = 1; else if (b[i] >= '0' && b[i] <= '9') digs[nd++] = b[i]; }
   digs[nd] = 0; ex -= (nd - 1);
